@@ -18,6 +18,7 @@ import (
 
 type vfC19Finding struct {
 	Clause  string      `json:"clause"`
+	Sig     string      `json:"signature"`
 	Detail  string      `json:"detail"`
 	Witness interface{} `json:"witness,omitempty"`
 }
@@ -57,7 +58,7 @@ func (v *vfC19Verdict) find(clause, detail string, w interface{}) {
 			return // one witness per clause and case
 		}
 	}
-	v.Findings = append(v.Findings, vfC19Finding{Clause: clause, Detail: detail, Witness: w})
+	v.Findings = append(v.Findings, vfC19Finding{Clause: clause, Sig: clause, Detail: detail, Witness: w})
 }
 
 type vfC19OpKey struct{ G, Op int }
@@ -175,7 +176,20 @@ func vfC19Check(p *vfC19Params, h []vfC19Ev, probeBusy []int, probeDone bool) *v
 					w = append(w, ivs[i].String())
 				}
 				sort.Strings(w)
+				refused := false
+				for i := range active {
+					for _, e := range h {
+						if (e.K == "rel-fail" || e.K == "runl-fail") && e.G == ivs[i].G && e.Op == ivs[i].Op && (e.Res == protocol.RESULT_UNOWN_ERROR || e.Res == protocol.RESULT_UNLOCK_ERROR) {
+							refused = true
+						}
+					}
+				}
+				nf := len(v.Findings)
 				v.find(clause, fmt.Sprintf("key %d: %d definitely-held intervals overlap at logical time %d (capacity %d): %v", k, n, b.T, capN, w), w)
+				if len(v.Findings) > nf && refused {
+					v.Findings[nf].Sig = clause + ":release-unowned"
+					v.Findings[nf].Detail += "; the release of one of these holders was answered 'not held' (the key was served by two lock managers)"
+				}
 			}
 		}
 		// acquires that began while the key was at capacity (client-side contention evidence)
@@ -438,8 +452,12 @@ func vfC19CheckEvent(p *vfC19Params, h []vfC19Ev, v *vfC19Verdict) {
 					if in.b != math.MaxInt64 {
 						nb = fmt.Sprint(in.b)
 					}
+					nf := len(v.Findings)
 					v.find("event-wait-before-set", fmt.Sprintf("event key %d (default-set=%v): Wait of goroutine %d op %d was called at logical time %d and returned success at %d, inside the window (%d, %s) in which the event was definitely clear (after a Clear returned / the start of the case, before the next Set was called)", e.Key, p.EventSet, e.G, e.Op, s, e.T, in.a, nb),
 						map[string]interface{}{"wait_call": s, "wait_return": e.T, "clear_window": []interface{}{in.a, nb}})
+					if len(v.Findings) > nf {
+						v.Findings[nf].Sig = fmt.Sprintf("event-wait-before-set:default-set=%v", p.EventSet)
+					}
 				}
 				if startedClear {
 					v.add("event_waits_woken_by_set", 1)
@@ -548,7 +566,8 @@ func vfC19RunAndJudge(env *vfEnv, part *vfPart, cl *vfC19Cluster, p *vfC19Params
 	} else {
 		part.Add("wall_ms_plain_cases", run.wall.Milliseconds())
 	}
-	part.Add("operations", int64(len(h)))
+	part.Add("history_events", int64(len(h)))
+	part.Add("planned_operations", int64(p.TotalOps))
 	part.Add("goroutines_total", int64(p.G))
 	part.Max("max_goroutines_in_a_case", int64(p.G))
 	part.Max("max_connections_in_a_case", int64(p.Conns))
@@ -631,7 +650,7 @@ func vfC19RunAndJudge(env *vfEnv, part *vfPart, cl *vfC19Cluster, p *vfC19Params
 	for _, f := range v.Findings {
 		doc := &vfC19ReplayDoc{Case: p.Case, Seed: p.Seed, Tier: env.Tier, Via: run.via, Params: p, Findings: v.Findings, ProbeBusy: run.probeBusy, ProbeDone: run.probeDone, History: h}
 		rp := vfWriteReplay(env, fmt.Sprintf("case%d-%s.json", p.Case, f.Clause), doc)
-		sig := f.Clause
+		sig := f.Sig
 		part.Violate(vfViolation{Prop: "C19", Clause: f.Clause, Detail: fmt.Sprintf("%s [prim=%s n=%d goroutines=%d conns=%d keys=%d via=%s reconnect=%d]", f.Detail, p.Prim, p.N, p.G, p.Conns, p.Keys, run.via, p.Reconnect), Case: p.Case, Replay: rp, Sig: sig})
 	}
 	return len(v.Findings)
@@ -658,7 +677,7 @@ func vfC19Replay(env *vfEnv, part *vfPart, cl *vfC19Cluster) {
 	for _, f := range v.Findings {
 		part.Mark("nontrivial", vfStrHash("recorded-"+f.Clause))
 		part.Mark("nontrivial", p.hash())
-		part.Violate(vfViolation{Prop: "C19", Clause: f.Clause, Detail: "recorded history: " + f.Detail, Case: p.Case, Replay: env.Replay, Sig: f.Clause})
+		part.Violate(vfViolation{Prop: "C19", Clause: f.Clause, Detail: "recorded history: " + f.Detail, Case: p.Case, Replay: env.Replay, Sig: f.Sig})
 	}
 	reps := 5
 	t0 := time.Now()
